@@ -245,7 +245,7 @@ def nontrivial_trim(c):
     return vlib.ta_nonempty(a) or len(vlib.ta_states(a)) > len(vlib.ta_productive(a))
 
 
-def single_cases(tier, rng, op, frac_quick, extra=None, nrand_quick=3000, nrand_thorough=20000, nums=("id", "rev", "sparse", "perm")):
+def single_cases(tier, rng, op, frac_quick, extra=None, nrand_quick=3000, nrand_thorough=20000, nums=("id", "rev", "sparse", "perm"), bigger=False):
     """B1' (<=3 states, <=3 rules over a,b,g,f; TLC-enumerated) + seeded random automata, each under a presentation"""
     cases = []
     frac = 1.0 if tier == "thorough" else frac_quick
@@ -259,7 +259,12 @@ def single_cases(tier, rng, op, frac_quick, extra=None, nrand_quick=3000, nrand_
         maybe_split(d, rng)
         cases.append(d)
     for i in range(nrand_thorough if tier == "thorough" else nrand_quick):
-        A, alpha = gen.rand_ta(rng)
+        if bigger and i % 2 == 0:
+            # more states and a small alphabet: several simulation-equivalent / simulation-ordered states
+            nq = rng.choice([4, 5, 6, 7])
+            A, alpha = gen.rand_ta(rng, nq=nq, nrules=rng.randint(nq, 2 * nq + 2), alpha=rng.choice([[["a", 0], ["b", 1]], [["a", 0], ["g", 1], ["f", 2]], [["a", 0], ["b", 0], ["g", 1]]]))
+        else:
+            A, alpha = gen.rand_ta(rng)
         d = {"id": ["r", i], "op": op, "src": "random"}
         d["A"] = gen.present(A, rng, rng.choice(nums))
         d["syms"] = gen.syms_of(d["A"])
@@ -337,7 +342,7 @@ def check_C05(tier, seed, res, replay=None):
     if replay:
         return do_replay(res, rd, replay)
     rng = random.Random(seed)
-    cases = single_cases(tier, rng, "reduce", 0.08)
+    cases = single_cases(tier, rng, "reduce", 0.5, nrand_quick=12000, nrand_thorough=60000, bigger=True)
     nt = lambda c: vlib.ta_nonempty(c["A"]) and len(vlib.ta_states(c["A"])) >= 2
     res.count_cases(cases, nt)
     res.add_samples([c for c in cases if nt(c)][:3])
